@@ -237,7 +237,18 @@ func (e *DNSEntry) decodeRRs(count int, p DNS, offset int, buffer []byte) (int, 
 
 		case 12: // PTR record
 			if !strings.HasSuffix(string(name), ".in-addr.arpa") {
-				// the owner is not an IPv4 reverse name (e.g. a service PTR): skip the record, keep the message
+				// an IPv6 reverse name is recorded; any other owner (e.g. a service PTR) is not an address: skip the record, keep the message
+				if ip, ok := ip6ArpaAddr(string(name)); ok {
+					tmpBuf = buffer
+					ptr, _, err := decodeName(p, endq+10, &tmpBuf, 1)
+					if err != nil {
+						return 0, false, fmt.Errorf("invalid PTR data: %w", err)
+					}
+					if _, found := e.PTRRecords[string(ptr)]; !found {
+						e.PTRRecords[string(ptr)] = IPResourceRecord{Name: string(ptr), TTL: ttl, IP: ip}
+						updated = true
+					}
+				}
 				break
 			}
 			s := strings.TrimSuffix(string(name), ".in-addr.arpa")
@@ -270,6 +281,38 @@ func (e *DNSEntry) decodeRRs(count int, p DNS, offset int, buffer []byte) (int, 
 	}
 
 	return offset, updated, nil
+}
+
+// ip6ArpaAddr returns the address of an IPv6 reverse mapping name (32 nibbles, least significant first, then ip6.arpa).
+func ip6ArpaAddr(name string) (netip.Addr, bool) {
+	s := strings.TrimSuffix(name, ".ip6.arpa")
+	if len(s) != 63 || len(s) == len(name) {
+		return netip.Addr{}, false
+	}
+	var a [16]byte
+	for i := 0; i < 32; i++ {
+		c := s[2*i]
+		var v byte
+		switch {
+		case c >= '0' && c <= '9':
+			v = c - '0'
+		case c >= 'a' && c <= 'f':
+			v = c - 'a' + 10
+		case c >= 'A' && c <= 'F':
+			v = c - 'A' + 10
+		default:
+			return netip.Addr{}, false
+		}
+		if i < 31 && s[2*i+1] != '.' {
+			return netip.Addr{}, false
+		}
+		if n := 31 - i; n%2 == 0 {
+			a[n/2] |= v << 4
+		} else {
+			a[n/2] |= v
+		}
+	}
+	return netip.AddrFrom16(a), true
 }
 
 // copy returns a deep copy of DNSEntry
